@@ -69,7 +69,7 @@ CHECKS = {
   note="Races inside GDAL below the proxies, the GIL and memory visibility are outside the model. The controller serialises "
        "worker threads, so only interleavings at yield points (lock acquire/release, first dataset access, fit, apply, job end) are "
        "explored - which is all that matters when every shared access is under a lock, and that premise is checked per access."
-       ' Added from the seeded-change rounds: lock-set discipline (some one controlled lock held at every access to a file; locks the code creates during a run come from a factory), schedules on objects that already did a single-threaded call, a free-running stress leg (switch interval 1 us) for races between byte-codes. The lock-set check sees Python-level locks only. Since round 8: a pass-through probe counts the threads inside read / dataset_mask of the parameter dataset shared by the workers of ParamStats.stats (more than one at a time is a failing input); validate_threads is extracted and proved (never more than the processors). Round 9: compare on a 640 x 560 band (more than a megabyte) with the finer grid forced, 1 / 2 / 4 threads - the partition is a matter of max_block_mem alone. Round 10: 3 inputs found by a bug-hunting sub-agent on the unchanged code (harness/found/C04_demo*.py: GDAL block cache under pressure) are replayed by this check on every run; they are listed in known_findings.json by script name. Round 11: min / max of parameter bands with empty tiles inside the data window under 1 / 2 / 4 threads and under reversed / shuffled completion orders (a lazy executor).',
+       ' Added from the seeded-change rounds: lock-set discipline (some one controlled lock held at every access to a file; locks the code creates during a run come from a factory), schedules on objects that already did a single-threaded call, a free-running stress leg (switch interval 1 us) for races between byte-codes. The lock-set check sees Python-level locks only. Since round 8: a pass-through probe counts the threads inside read / dataset_mask of the parameter dataset shared by the workers of ParamStats.stats (more than one at a time is a failing input); validate_threads is extracted and proved (never more than the processors). Round 9: compare on a 640 x 560 band (more than a megabyte) with the finer grid forced, 1 / 2 / 4 threads - the partition is a matter of max_block_mem alone. Round 10: 3 inputs found by a bug-hunting sub-agent on the unchanged code (harness/found/C04_demo*.py: GDAL block cache under pressure) are replayed by this check on every run; they are listed in known_findings.json by script name. Round 11: min / max of parameter bands with empty tiles inside the data window under 1 / 2 / 4 threads and under reversed / shuffled completion orders (a lazy executor). Round 12: two real workers ordered by events so that another block\'s fit() completes between a block\'s own fit() and apply() (the one model object is shared by all blocks), on images with blocks that hold no valid pixel, both processing grids.',
   tech="Lean 4 proof about a scheduler state machine + trace validation of real threads under a controlled scheduler", ref='7 C04'),
  'C05': dict(
   text="Proof (Lean 4): overlap_for_kernel = ceil(k/2) = radius + 1; the kernel window of every pixel within one pixel of a "
@@ -147,7 +147,7 @@ CHECKS = {
        "terminates within a watchdog, all four datasets closed, all locks free, reader reusable with the reference result; "
        "multi-thread traces replayed by the Lean machine with the same fault plan (outcome raised, locks free, all other blocks "
        "complete); CLI exit codes; compare and stats analogues.",
-  note="Faults inside GDAL that do not surface as Python exceptions are outside. The watchdog bound (60 s) stands for liveness. Since round 8: every fourth fault plan writes its outputs through the Erdas Imagine or ENVI driver. Round 9: CLI compare / stats exit status under block failures; worker threads alive after a failed call are a failing input (and are joined before the datasets are closed); failure of the last tile of the valid-data window pre-pass on an all-valid parameter image; an interpreter crash of the check process is reported as a violation. Round 10: 3 input(s) found by a bug-hunting sub-agent on the unchanged code (harness/found/C09_demo*.py) are replayed by this check on every run; those that violate the property are listed in known_findings.json by script name (repaired ones must stay quiet). Round 11: blocks unreadable at the GDAL level (the compressed bytes of a tile zeroed in a parameter image and in a source).",
+  note="Faults inside GDAL that do not surface as Python exceptions are outside. The watchdog bound (60 s) stands for liveness. Since round 8: every fourth fault plan writes its outputs through the Erdas Imagine or ENVI driver. Round 9: CLI compare / stats exit status under block failures; worker threads alive after a failed call are a failing input (and are joined before the datasets are closed); failure of the last tile of the valid-data window pre-pass on an all-valid parameter image; an interpreter crash of the check process is reported as a violation. Round 10: 3 input(s) found by a bug-hunting sub-agent on the unchanged code (harness/found/C09_demo*.py) are replayed by this check on every run; those that violate the property are listed in known_findings.json by script name (repaired ones must stay quiet). Round 11: blocks unreadable at the GDAL level (the compressed bytes of a tile zeroed in a parameter image and in a source). Round 12: the CLI fault legs run under no flag, -v, -q, -vv and -v -q -v (the exit status does not depend on the verbosity).",
   tech="Lean 4 proof about the machine under fault plans + exhaustive single-fault enumeration on the real code",
   ref='7 C09', category='proof'),
  'C10': dict(
@@ -160,7 +160,7 @@ CHECKS = {
        "object / fresh objects / CLI / mixed; str and Path; overwrite on/off; with/without parameter image; pre-existing garbage "
        "or older outputs): outcomes and listings vs the machine, bytes+mtime of untouched files, decoded outputs vs fresh runs.",
   note="GDAL side-car files (.aux.xml, .msk, .ovr) are whitelisted. Content identity is the decoded raster (pixels, masks, "
-       "tags, descriptions), not the compressed bytes. Since round 8: an overwrite over outputs that own GDAL side-car files (strict GeoTIFF profile: tags in .aux.xml) must equal the same call into an empty directory - files, decoded content, tags, parameter statistics. Round 9: homonim fuse on a symbolic link to the source in another directory and on a relative source path, without --out-dir. Round 10: 2 input(s) found by a bug-hunting sub-agent on the unchanged code (harness/found/C10_demo*.py) are replayed by this check on every run; those that violate the property are listed in known_findings.json by script name (repaired ones must stay quiet). Round 11: flags of process() given positionally in the documented order.",
+       "tags, descriptions), not the compressed bytes. Since round 8: an overwrite over outputs that own GDAL side-car files (strict GeoTIFF profile: tags in .aux.xml) must equal the same call into an empty directory - files, decoded content, tags, parameter statistics. Round 9: homonim fuse on a symbolic link to the source in another directory and on a relative source path, without --out-dir. Round 10: 2 input(s) found by a bug-hunting sub-agent on the unchanged code (harness/found/C10_demo*.py) are replayed by this check on every run; those that violate the property are listed in known_findings.json by script name (repaired ones must stay quiet). Round 11: flags of process() given positionally in the documented order. Round 12: output and pre-existing file names with glob characters (scene[1].tif).",
   tech="Lean 4 proof (invariants over call histories of a state machine) + differential history runs", ref='7 C10'),
  'C11': dict(
   text="Proof (Lean 4) over exact rationals: block sums are additive over any split of the pixels, accumulating the blocks of any "
@@ -176,7 +176,7 @@ CHECKS = {
        "row = band average, CLI JSON = API.",
   note="Known findings (open): D7 forced finer processing grid with a non-nearest kernel (block-edge effects), D10 duplicate band "
        "names collapse rows, D11 N partition-dependent in tie geometry on a forced finer grid. Square roots are not modelled "
-       "(squares compared). GDAL cubic/cubic_spline up-sampling is not modelled (those cases only get the partition check). Round 9: near-identical pairs at 16-bit magnitudes (5000 / 40000 differing by 1-10 counts; reflectances differing by 1e-4) against the float64 definition of RMSE / rRMSE. Round 10: 3 input(s) found by a bug-hunting sub-agent on the unchanged code (harness/found/C11_demo*.py) are replayed by this check on every run; those that violate the property are listed in known_findings.json by script name (repaired ones must stay quiet). Round 11: a 4100 x 4100 pair with more than 2^24 (and an odd number of) jointly valid pixels: N exact for one block and for many.",
+       "(squares compared). GDAL cubic/cubic_spline up-sampling is not modelled (those cases only get the partition check). Round 9: near-identical pairs at 16-bit magnitudes (5000 / 40000 differing by 1-10 counts; reflectances differing by 1e-4) against the float64 definition of RMSE / rRMSE. Round 10: 3 input(s) found by a bug-hunting sub-agent on the unchanged code (harness/found/C11_demo*.py) are replayed by this check on every run; those that violate the property are listed in known_findings.json by script name (repaired ones must stay quiet). Round 11: a 4100 x 4100 pair with more than 2^24 (and an odd number of) jointly valid pixels: N exact for one block and for many. Round 12: bands with undefined statistics (no valid pixel in a source / reference band, a band constant in both images) beside ordinary bands: N by definition, Mean the (undefined) average of the rows.",
   tech="Lean 4 proof (list induction, permutation invariance of a commutative fold, field algebra) + differential runs", ref='7 C11'),
  'C12': dict(
   text="Proof (Lean 4): tile accumulators are additive, tiling- and completion-order-invariant (tile_partition_invariant, "
@@ -209,7 +209,7 @@ CHECKS = {
        "layout; tags; ParamStats accepts; parameter mask = jointly valid on the processing grid (model validity rules); "
        "source-grid identity bit for bit.",
   note="The value content of the parameter bands is C01/C05's; degenerate windows are excluded from the mask comparison "
-       "(gain-offset skipped there). Since round 8: one reference band paired with several source bands (`repeat` selections); validate_param_image's count test, required tags and suffix list are extracted and proved to match what fuse writes (src_C12_label_matches_suffix). Round 9: a parameter image with non-finite statistics (R2 = -inf over a constant reference patch) is accepted by the API, homonim stats and homonim stats --output. Round 10: 3 input(s) found by a bug-hunting sub-agent on the unchanged code (harness/found/C14_demo*.py) are replayed by this check on every run; those that violate the property are listed in known_findings.json by script name (repaired ones must stay quiet). Round 11: references with NAME / ID / ABBREV band tags - each parameter band carries the upper-cased value with its own parameter's name.",
+       "(gain-offset skipped there). Since round 8: one reference band paired with several source bands (`repeat` selections); validate_param_image's count test, required tags and suffix list are extracted and proved to match what fuse writes (src_C12_label_matches_suffix). Round 9: a parameter image with non-finite statistics (R2 = -inf over a constant reference patch) is accepted by the API, homonim stats and homonim stats --output. Round 10: 3 input(s) found by a bug-hunting sub-agent on the unchanged code (harness/found/C14_demo*.py) are replayed by this check on every run; those that violate the property are listed in known_findings.json by script name (repaired ones must stay quiet). Round 11: references with NAME / ID / ABBREV band tags - each parameter band carries the upper-cased value with its own parameter's name. Round 12: no band of the parameter image (gain, offset, R2 of any pair, any model, in-painting on or off) is valid where the two images are not both valid.",
   tech="Lean 4 proof (Nat division/modulo arithmetic, list computation) + bit-identity differential runs", ref='7 C14'),
  'C15': dict(
   text="Proof (Lean 4) about the executable model of _match_pair_bands (greedy loop with masked-array semantics, threshold, "
@@ -272,7 +272,7 @@ CHECKS = {
        "combine_profiles vs the model on generated profiles.",
   note="Partial: WarpedVRT (north-up re-projection, CRS changes), rotated and cross-CRS inputs are exercised, not modelled; "
        "south-up storage is only generated on dyadic geometry (a flipped decimal grid is an ulp off the north-up one)."
-       ' Known finding D21 (open): with different CRSs and the source grid as processing grid the corrected image is written on the re-projected source grid. Since round 8: bands paired by hand against the wavelengths with force=True - the corrected bands carry the tags of the bands they were paired with. Round 9: numeric settings (thresholds 1/3, 0.123456789; the computed block memory) must parse back exactly from the FUSE_* tags of both outputs. Round 10: 3 input(s) found by a bug-hunting sub-agent on the unchanged code (harness/found/C18_demo*.py) are replayed by this check on every run; those that violate the property are listed in known_findings.json by script name (repaired ones must stay quiet). Round 11: a south-up source in another CRS than the reference stays on the north-up source grid.',
+       ' Known finding D21 (open): with different CRSs and the source grid as processing grid the corrected image is written on the re-projected source grid. Since round 8: bands paired by hand against the wavelengths with force=True - the corrected bands carry the tags of the bands they were paired with. Round 9: numeric settings (thresholds 1/3, 0.123456789; the computed block memory) must parse back exactly from the FUSE_* tags of both outputs. Round 10: 3 input(s) found by a bug-hunting sub-agent on the unchanged code (harness/found/C18_demo*.py) are replayed by this check on every run; those that violate the property are listed in known_findings.json by script name (repaired ones must stay quiet). Round 11: a south-up source in another CRS than the reference stays on the north-up source grid. Round 12: creation_options left out / {} / None in the output profile (byte outputs with 3 and 4 bands included).',
   tech="Lean 4 proof of the decision logic (+ corollary of the matcher theorem) + differential runs", ref='7 C18'),
  'C19': dict(
   text="Proof (Lean 4) of the front-end logic: per-key precedence command line > file > default (merge_precedence), file keys "
@@ -287,7 +287,7 @@ CHECKS = {
        "by `homonim fuse --compare [FILE]` (options from flags or the configuration file) recorded and compared with the API call "
        "with the same settings (grid, bands, statistics, --output JSON); stats JSON vs API in C12.",
   note="Partial: click's own parsing and type conversion are trusted; values that come from the YAML file bypass click's "
-       "callbacks (e.g. a kernel shape arrives as a list), which the harness mirrors. Since round 8: the default= expression of every click option that feeds an API dictionary is extracted (it must be an expression over the API's own create_* defaults), as are validate_threads (with both callers), the output-name f-strings and validate_kernel_shape; proved equal to the model's. Round 10: 3 input(s) found by a bug-hunting sub-agent on the unchanged code (harness/found/C19_demo*.py) are replayed by this check on every run; those that violate the property are listed in known_findings.json by script name (repaired ones must stay quiet). Round 11: kernel shape given in the configuration file only (a yaml list).",
+       "callbacks (e.g. a kernel shape arrives as a list), which the harness mirrors. Since round 8: the default= expression of every click option that feeds an API dictionary is extracted (it must be an expression over the API's own create_* defaults), as are validate_threads (with both callers), the output-name f-strings and validate_kernel_shape; proved equal to the model's. Round 10: 3 input(s) found by a bug-hunting sub-agent on the unchanged code (harness/found/C19_demo*.py) are replayed by this check on every run; those that violate the property are listed in known_findings.json by script name (repaired ones must stay quiet). Round 11: kernel shape given in the configuration file only (a yaml list). Round 12: the command-line spelling of a real option (kernel-shape, max-block-mem, ...) as a configuration key is an unknown key.",
   tech="Lean 4 proof + translator-generated tables (decide) + CLI-vs-API differential runs", ref='7 C19'),
  'C20': dict(
   text="Proof (Lean 4): for every integer window with non-negative size the boundless read succeeds (read_total) and returns "
@@ -301,7 +301,7 @@ CHECKS = {
        "Tied to the code by ~4000 reads (exhaustive per-axis windows, 4 dtype/nodata/mask/band variants), ~200 writes and 50 "
        "writes of blocks with invalid pixels into internal-mask / numeric-nodata datasets, compared pixel by pixel.",
   note="GDAL read/write of an in-range window is trusted to transfer pixels faithfully; dtype conversion on write belongs to C13."
-       ' Findings D22 (multi-band block with conversion) and D23 (window=None on decimal grids) were fixed in /repo; legs for both, for rotated / sheared / south-up reads and for values near a numeric nodata value. Round 9: blocks whose mask was read, then edited in place through ra.array[...], then written: the window reads back the block as edited. Round 10: 3 input(s) found by a bug-hunting sub-agent on the unchanged code (harness/found/C20_demo*.py) are replayed by this check on every run; those that violate the property are listed in known_findings.json by script name (repaired ones must stay quiet). Round 11: windows of the block\'s own size that start inside the block and end beyond it must be refused; a pixel the block does not hold is never written.',
+       ' Findings D22 (multi-band block with conversion) and D23 (window=None on decimal grids) were fixed in /repo; legs for both, for rotated / sheared / south-up reads and for values near a numeric nodata value. Round 9: blocks whose mask was read, then edited in place through ra.array[...], then written: the window reads back the block as edited. Round 10: 3 input(s) found by a bug-hunting sub-agent on the unchanged code (harness/found/C20_demo*.py) are replayed by this check on every run; those that violate the property are listed in known_findings.json by script name (repaired ones must stay quiet). Round 11: windows of the block\'s own size that start inside the block and end beyond it must be refused; a pixel the block does not hold is never written. Round 12: every third read runs with the package logger at DEBUG (homonim -v).',
   tech="Lean 4 proof (omega over integer windows, list extensionality) + exhaustive small-window differential run", ref='7 C20'),
 }
 NA_REASON = 'check not built yet in this round (planned: see DESIGN.md section 7); nothing is claimed for it'
